@@ -226,7 +226,7 @@ func runLimRace(id string, parts []string) string {
 				a, c, _ := burstOn(r+1, instant(2*r), o.Burst)
 				upd(&lo, &hi, a, r == 0)
 				ctl += c
-				cl.VerifGcAt(instant(2*r + 1))
+				cl.VerifGcNow(instant(2*r + 1))
 				key := cl.VerifMask(c15RaceAddr(fam, m, r+1, 1))
 				gone := true
 				for _, k := range cl.VerifKeys() {
